@@ -43,6 +43,7 @@ ALLOPS = HF6 + OTHERS
 
 TEXTS = ["plain", "meta", "cjk", "edge", "var"]
 FMTS = ["bold", "ital", "neg", "zero", "nil"]
+FMT1 = ["b1", "i1", "u1", "st1", "size1", "col1", "ff1", "fn1", "hl1"]   # exactly one attribute set
 ALIGNS = ["center", "right", "both", "left", ""]
 
 
@@ -57,7 +58,7 @@ def small(seed, **over):
 
 WIDE = dict(HfC={"h", "f"}, KindsC={"default", "first", "even"}, TextC={"plain", "meta", "cjk", "edge", "empty", "var"},
             ShowC={True, False}, FmtC=set(FMTS), AlignC=set(ALIGNS), CfgNilC={True}, PageC=PAGE_ALL,
-            ViaC={"mem", "file", "word"}, RViaC={"doc", "legacy"}, DataC={"def", "undef"})
+            ViaC={"mem", "file", "word", "wordabs", "worddot"}, RViaC={"doc", "legacy"}, DataC={"def", "undef"})
 
 
 def gencfg(ctx, name, ops, args, depth, last=()):
@@ -84,6 +85,17 @@ def plans(seed, q):
          small(seed, KindsC={"first", "default"}, TextC={"plain"}, ViaC={"word"}, FmtC={FMTS[seed % 2]}), 3),
         ("foreignh", ["AddHeader", "AddHeaderWithPageNumber", "AddFormattedHeader", "Reopen"],
          small(seed, KindsC={"even", "default"}, TextC={"plain"}, ViaC={"word"}, FmtC={FMTS[seed % 2]}), 3),
+        # the same package with the header/footer relationship targets spelt as absolute part names / with a dot segment
+        ("spelt", ["AddHeader", "AddFooterWithPageNumber", "Reopen", "ToBytes"],
+         small(seed, KindsC={"default", "first"} if seed % 2 else {"even", "default"}, TextC={"plain"}, ViaC={"wordabs", "worddot"}), 3),
+    ]
+    P += [
+        # formats that set exactly one attribute, first definition and redefinition (the latest call's formatting must show)
+        ("fmt1", ["AddFormattedHeader", "AddFormattedFooter"],
+         small(seed, KindsC={["default", "first", "even"][seed % 3]}, TextC={"plain"}, FmtC=set(FMT1), AlignC={""}), 2),
+        # every page-setting call between and after definitions: a header and a footer kind each, three calls deep
+        ("page", ["AddHeader", "AddFooterWithPageNumber", "PageSet"],
+         small(seed, KindsC={["first", "even", "default"][seed % 3]}, TextC={"plain"}, PageC=PAGE_ALL), 3),
     ]
     if not q:
         P += [
